@@ -46,6 +46,18 @@ def handler_operation(ctx, h):
     return None
 
 
+class _FalsyClass(object):
+    """a class slot holding a class that is falsy (a metaclass with __len__/__bool__, e.g. an empty Enum-like class)"""
+    def __bool__(self):
+        return False
+
+    def __repr__(self):
+        return "<falsy class>"
+
+
+_FALSY_CLASS = _FalsyClass()
+
+
 def run(ctx, rep):
     rep.rule("R02.1", "dunder <-> handler <-> builtin agreement against the Python data model")
     rep.rule("R02.2", "rich comparisons send their own name; the handler looks that name up on type(obj) and applies it to (obj, other)")
@@ -442,7 +454,8 @@ def run(ctx, rep):
     cases = [("foo", None, ("syncreq", HG, "foo")), ("__len__", None, ("syncreq", HG, "__len__")),
              (plain_local, None, ("objget", plain_local)), ("__call__", None, ("objget", "__call__")),
              ("__array__", None, ("objget", "__array__")), ("__doc__", None, ("getattr", "__doc__")),
-             ("__class__", "CLS", ("objget", "__class__")), ("__class__", None, ("getattr", "__class__"))]
+             ("__class__", "CLS", ("objget", "__class__")), ("__class__", None, ("getattr", "__class__")),
+             ("__class__", _FALSY_CLASS, ("objget", "__class__"))]
     if deleted:
         cases.append((deleted, None, ("raise", "AttributeError")))
     bad_ga = []
